@@ -1,5 +1,6 @@
 // auto-generated: "lalrpop 0.23.1"
-// sha3: 06b063741d82145186a19636f60683837edd3c096ca04f70c5597c965f09c351
+// sha3: 40272f21c86d363081fdbffca7d591752d027e9be6ad59a0e743e8331f6a69d6
+use crate::support::*;
 #[allow(unused_extern_crates)]
 extern crate lalrpop_util as __lalrpop_util;
 #[allow(unused_imports)]
@@ -9,8 +10,9 @@ extern crate alloc;
 
 #[rustfmt::skip]
 #[allow(explicit_outlives_requirements, non_snake_case, non_camel_case_types, unused_mut, unused_variables, unused_imports, unused_parens, clippy::needless_lifetimes, clippy::type_complexity, clippy::needless_return, clippy::too_many_arguments, clippy::match_single_binding, clippy::clone_on_copy, clippy::unit_arg)]
-mod __parse__O {
+mod __parse__S {
 
+    use crate::support::*;
     #[allow(unused_extern_crates)]
     extern crate lalrpop_util as __lalrpop_util;
     #[allow(unused_imports)]
@@ -18,16 +20,16 @@ mod __parse__O {
     #[allow(unused_extern_crates)]
     extern crate alloc;
     use self::__lalrpop_util::lexer::Token;
-    pub struct OParser {
+    pub struct SParser {
         builder: __lalrpop_util::lexer::MatcherBuilder,
         _priv: (),
     }
 
-    impl Default for OParser { fn default() -> Self { Self::new() } }
-    impl OParser {
-        pub fn new() -> OParser {
+    impl Default for SParser { fn default() -> Self { Self::new() } }
+    impl SParser {
+        pub fn new() -> SParser {
             let __builder = super::__intern_token::new_builder();
-            OParser {
+            SParser {
                 builder: __builder,
                 _priv: (),
             }
@@ -39,7 +41,7 @@ mod __parse__O {
         >(
             &self,
             input: &'input str,
-        ) -> Result<((usize, usize), (usize, String, usize)), __lalrpop_util::ParseError<usize, Token<'input>, &'static str>>
+        ) -> Result<Vec<usize>, __lalrpop_util::ParseError<usize, Token<'input>, &'static str>>
         {
             let mut __tokens = self.builder.matcher(input);
             let __lookahead = match __tokens.next() {
@@ -51,7 +53,7 @@ mod __parse__O {
                 (Some(__lookahead), _) => {
                     Err(__lalrpop_util::ParseError::ExtraToken { token: __lookahead })
                 }
-                (None, __Nonterminal::____O((_, __nt, _))) => {
+                (None, __Nonterminal::____S((_, __nt, _))) => {
                     Ok(__nt)
                 }
                 _ => unreachable!(),
@@ -62,19 +64,20 @@ mod __parse__O {
     #[allow(dead_code)]
     enum __Nonterminal<'input>
      {
-        _22_21_22_3f((usize, Option<&'input str>, usize)),
+        _22c_22_3f((usize, Option<&'input str>, usize)),
         _40L((usize, usize, usize)),
         _40R((usize, usize, usize)),
-        Gap_3c_22_28_22_2c_20_22_29_22_3e((usize, (usize, usize, usize), usize)),
-        Id((usize, String, usize)),
-        O((usize, ((usize, usize), (usize, String, usize)), usize)),
-        Opt_3c_22_21_22_3e((usize, (usize, usize), usize)),
-        P((usize, (usize, usize, usize), usize)),
-        S((usize, Vec<(usize, String, usize)>, usize)),
-        Sp_3cId_3e((usize, (usize, String, usize), usize)),
-        ____O((usize, ((usize, usize), (usize, String, usize)), usize)),
-        ____P((usize, (usize, usize, usize), usize)),
-        ____S((usize, Vec<(usize, String, usize)>, usize)),
+        Item((usize, usize, usize)),
+        Item_2a((usize, alloc::vec::Vec<usize>, usize)),
+        Item_2b((usize, alloc::vec::Vec<usize>, usize)),
+        N0((usize, Option<(Option<&'input str>, &'input str, Option<&'input str>)>, usize)),
+        N1((usize, &'input str, usize)),
+        N2((usize, (Option<&'input str>, &'input str, Option<&'input str>), usize)),
+        N3((usize, (Option<&'input str>, &'input str, Option<&'input str>), usize)),
+        N3_3f((usize, Option<(Option<&'input str>, &'input str, Option<&'input str>)>, usize)),
+        N4((usize, Option<&'input str>, usize)),
+        S((usize, Vec<usize>, usize)),
+        ____S((usize, Vec<usize>, usize)),
     }
 
     fn __state0<
@@ -89,15 +92,15 @@ mod __parse__O {
     {
         let mut __result: (Option<(usize, Token<'input>, usize)>, __Nonterminal<'input>);
         match __lookahead {
-            Some((__loc1, Token(1, __tok0), __loc2)) => {
+            Some((__loc1, Token(4, __tok0), __loc2)) => {
                 let __sym0 = (__loc1, (__tok0), __loc2);
-                __result = __state3(input, __tokens, __sym0, core::marker::PhantomData::<(&())>)?;
+                __result = __state2(input, __tokens, __sym0, core::marker::PhantomData::<(&())>)?;
             }
-            Some((_, Token(0, _), _)) => {
+            None => {
                 let __start: usize = __lookahead.as_ref().map(|o| o.0.clone()).unwrap_or_default();
                 let __end = __start.clone();
-                let __nt = super::__action23::<>(input, &__start, &__end);
-                let __nt = __Nonterminal::Opt_3c_22_21_22_3e((
+                let __nt = super::__action22::<>(input, &__start, &__end);
+                let __nt = __Nonterminal::S((
                     __start,
                     __nt,
                     __end,
@@ -107,8 +110,7 @@ mod __parse__O {
             _ => {
                 #[allow(clippy::needless_raw_string_hashes)]
                 let __expected = alloc::vec![
-                    r###"r#"[a-z]+"#"###.to_string(),
-                    r###""!""###.to_string(),
+                    r###""d""###.to_string(),
                 ];
                 return Err(
                     match __lookahead {
@@ -133,11 +135,17 @@ mod __parse__O {
         loop {
             let (__lookahead, __nt) = __result;
             match __nt {
-                __Nonterminal::O(__sym0) => {
-                    __result = __state2(input, __tokens, __lookahead, __sym0, core::marker::PhantomData::<(&())>)?;
+                __Nonterminal::Item(__sym0) => {
+                    __result = __state4(input, __tokens, __lookahead, __sym0, core::marker::PhantomData::<(&())>)?;
                 }
-                __Nonterminal::Opt_3c_22_21_22_3e(__sym0) => {
+                __Nonterminal::Item_2b(__sym0) => {
                     __result = __state1(input, __tokens, __lookahead, __sym0, core::marker::PhantomData::<(&())>)?;
+                }
+                __Nonterminal::N0(__sym0) => {
+                    __result = __state5(input, __tokens, __lookahead, __sym0, core::marker::PhantomData::<(&())>)?;
+                }
+                __Nonterminal::S(__sym0) => {
+                    __result = __state6(input, __tokens, __lookahead, __sym0, core::marker::PhantomData::<(&())>)?;
                 }
                 _ => {
                     return Ok((__lookahead, __nt));
@@ -153,20 +161,32 @@ mod __parse__O {
         input: &'input str,
         __tokens: &mut __TOKENS,
         __lookahead: Option<(usize, Token<'input>, usize)>,
-        __sym0: (usize, (usize, usize), usize),
+        __sym0: (usize, alloc::vec::Vec<usize>, usize),
         _: core::marker::PhantomData<(&'input ())>,
     ) -> Result<(Option<(usize, Token<'input>, usize)>, __Nonterminal<'input>), __lalrpop_util::ParseError<usize, Token<'input>, &'static str>>
     {
         let mut __result: (Option<(usize, Token<'input>, usize)>, __Nonterminal<'input>);
         match __lookahead {
-            Some((__loc1, Token(0, __tok0), __loc2)) => {
+            Some((__loc1, Token(4, __tok0), __loc2)) => {
                 let __sym1 = (__loc1, (__tok0), __loc2);
-                __result = __state6(input, __tokens, __sym1, core::marker::PhantomData::<(&())>)?;
+                __result = __state2(input, __tokens, __sym1, core::marker::PhantomData::<(&())>)?;
+            }
+            None => {
+                let __start = __sym0.0.clone();
+                let __end = __sym0.2.clone();
+                let __nt = super::__action23::<>(input, __sym0);
+                let __nt = __Nonterminal::S((
+                    __start,
+                    __nt,
+                    __end,
+                ));
+                __result = (__lookahead, __nt);
+                return Ok(__result);
             }
             _ => {
                 #[allow(clippy::needless_raw_string_hashes)]
                 let __expected = alloc::vec![
-                    r###"r#"[a-z]+"#"###.to_string(),
+                    r###""d""###.to_string(),
                 ];
                 return Err(
                     match __lookahead {
@@ -191,12 +211,12 @@ mod __parse__O {
         loop {
             let (__lookahead, __nt) = __result;
             match __nt {
-                __Nonterminal::Id(__sym1) => {
-                    __result = __state4(input, __tokens, __lookahead, __sym1, core::marker::PhantomData::<(&())>)?;
-                }
-                __Nonterminal::Sp_3cId_3e(__sym1) => {
-                    __result = __state5(input, __tokens, __lookahead, __sym0, __sym1, core::marker::PhantomData::<(&())>)?;
+                __Nonterminal::Item(__sym1) => {
+                    __result = __state7(input, __tokens, __lookahead, __sym0, __sym1, core::marker::PhantomData::<(&())>)?;
                     return Ok(__result);
+                }
+                __Nonterminal::N0(__sym1) => {
+                    __result = __state5(input, __tokens, __lookahead, __sym1, core::marker::PhantomData::<(&())>)?;
                 }
                 _ => {
                     return Ok((__lookahead, __nt));
@@ -206,56 +226,6 @@ mod __parse__O {
     }
 
     fn __state2<
-        'input,
-        __TOKENS: Iterator<Item=Result<(usize, Token<'input>, usize),__lalrpop_util::ParseError<usize, Token<'input>, &'static str>>>,
-    >(
-        input: &'input str,
-        __tokens: &mut __TOKENS,
-        __lookahead: Option<(usize, Token<'input>, usize)>,
-        __sym0: (usize, ((usize, usize), (usize, String, usize)), usize),
-        _: core::marker::PhantomData<(&'input ())>,
-    ) -> Result<(Option<(usize, Token<'input>, usize)>, __Nonterminal<'input>), __lalrpop_util::ParseError<usize, Token<'input>, &'static str>>
-    {
-        let mut __result: (Option<(usize, Token<'input>, usize)>, __Nonterminal<'input>);
-        match __lookahead {
-            None => {
-                let __start = __sym0.0.clone();
-                let __end = __sym0.2.clone();
-                let __nt = super::__action2::<>(input, __sym0);
-                let __nt = __Nonterminal::____O((
-                    __start,
-                    __nt,
-                    __end,
-                ));
-                __result = (__lookahead, __nt);
-                return Ok(__result);
-            }
-            _ => {
-                #[allow(clippy::needless_raw_string_hashes)]
-                let __expected = alloc::vec![
-                ];
-                return Err(
-                    match __lookahead {
-                        Some(__token) => {
-                            __lalrpop_util::ParseError::UnrecognizedToken {
-                                token: __token,
-                                expected: __expected,
-                            }
-                        }
-                        None => {
-                            let __location = __sym0.2.clone();
-                            __lalrpop_util::ParseError::UnrecognizedEof {
-                                location: __location,
-                                expected: __expected,
-                            }
-                        }
-                    }
-                )
-            }
-        }
-    }
-
-    fn __state3<
         'input,
         __TOKENS: Iterator<Item=Result<(usize, Token<'input>, usize),__lalrpop_util::ParseError<usize, Token<'input>, &'static str>>>,
     >(
@@ -272,11 +242,15 @@ mod __parse__O {
             None => None,
         };
         match __lookahead {
+            Some((__loc1, Token(3, __tok0), __loc2)) => {
+                let __sym1 = (__loc1, (__tok0), __loc2);
+                __result = __state11(input, __tokens, __sym1, core::marker::PhantomData::<(&())>)?;
+            }
             Some((_, Token(0, _), _)) => {
                 let __start = __sym0.0.clone();
                 let __end = __sym0.2.clone();
-                let __nt = super::__action22::<>(input, __sym0);
-                let __nt = __Nonterminal::Opt_3c_22_21_22_3e((
+                let __nt = super::__action25::<>(input, __sym0);
+                let __nt = __Nonterminal::N0((
                     __start,
                     __nt,
                     __end,
@@ -284,10 +258,23 @@ mod __parse__O {
                 __result = (__lookahead, __nt);
                 return Ok(__result);
             }
+            Some((_, Token(4, _), _)) => {
+                let __start = __lookahead.as_ref().map(|o| o.0.clone()).unwrap_or_else(|| __sym0.2.clone());
+                let __end = __start.clone();
+                let __nt = super::__action19::<>(input, &__start, &__end);
+                let __nt = __Nonterminal::N4((
+                    __start,
+                    __nt,
+                    __end,
+                ));
+                __result = (__lookahead, __nt);
+            }
             _ => {
                 #[allow(clippy::needless_raw_string_hashes)]
                 let __expected = alloc::vec![
-                    r###"r#"[a-z]+"#"###.to_string(),
+                    r###"",""###.to_string(),
+                    r###""c""###.to_string(),
+                    r###""d""###.to_string(),
                 ];
                 return Err(
                     match __lookahead {
@@ -308,6 +295,95 @@ mod __parse__O {
                 )
             }
         }
+        #[allow(clippy::never_loop)]
+        loop {
+            let (__lookahead, __nt) = __result;
+            match __nt {
+                __Nonterminal::N3(__sym1) => {
+                    __result = __state9(input, __tokens, __lookahead, __sym0, __sym1, core::marker::PhantomData::<(&())>)?;
+                    return Ok(__result);
+                }
+                __Nonterminal::N4(__sym1) => {
+                    __result = __state10(input, __tokens, __lookahead, __sym1, core::marker::PhantomData::<(&())>)?;
+                }
+                _ => {
+                    return Ok((__lookahead, __nt));
+                }
+            }
+        }
+    }
+
+    fn __state3<
+        'input,
+        __TOKENS: Iterator<Item=Result<(usize, Token<'input>, usize),__lalrpop_util::ParseError<usize, Token<'input>, &'static str>>>,
+    >(
+        input: &'input str,
+        __tokens: &mut __TOKENS,
+        __sym0: (usize, Option<&'input str>, usize),
+        __sym1: (usize, &'input str, usize),
+        _: core::marker::PhantomData<(&'input ())>,
+    ) -> Result<(Option<(usize, Token<'input>, usize)>, __Nonterminal<'input>), __lalrpop_util::ParseError<usize, Token<'input>, &'static str>>
+    {
+        let mut __result: (Option<(usize, Token<'input>, usize)>, __Nonterminal<'input>);
+        let __lookahead = match __tokens.next() {
+            Some(Ok(v)) => Some(v),
+            Some(Err(e)) => return Err(e),
+            None => None,
+        };
+        match __lookahead {
+            Some((__loc1, Token(3, __tok0), __loc2)) => {
+                let __sym2 = (__loc1, (__tok0), __loc2);
+                __result = __state11(input, __tokens, __sym2, core::marker::PhantomData::<(&())>)?;
+            }
+            Some((_, Token(0, _), _)) => {
+                let __start = __lookahead.as_ref().map(|o| o.0.clone()).unwrap_or_else(|| __sym1.2.clone());
+                let __end = __start.clone();
+                let __nt = super::__action19::<>(input, &__start, &__end);
+                let __nt = __Nonterminal::N4((
+                    __start,
+                    __nt,
+                    __end,
+                ));
+                __result = (__lookahead, __nt);
+            }
+            _ => {
+                #[allow(clippy::needless_raw_string_hashes)]
+                let __expected = alloc::vec![
+                    r###"",""###.to_string(),
+                    r###""c""###.to_string(),
+                ];
+                return Err(
+                    match __lookahead {
+                        Some(__token) => {
+                            __lalrpop_util::ParseError::UnrecognizedToken {
+                                token: __token,
+                                expected: __expected,
+                            }
+                        }
+                        None => {
+                            let __location = __sym1.2.clone();
+                            __lalrpop_util::ParseError::UnrecognizedEof {
+                                location: __location,
+                                expected: __expected,
+                            }
+                        }
+                    }
+                )
+            }
+        }
+        #[allow(clippy::never_loop)]
+        loop {
+            let (__lookahead, __nt) = __result;
+            match __nt {
+                __Nonterminal::N4(__sym2) => {
+                    __result = __state12(input, __tokens, __lookahead, __sym0, __sym1, __sym2, core::marker::PhantomData::<(&())>)?;
+                    return Ok(__result);
+                }
+                _ => {
+                    return Ok((__lookahead, __nt));
+                }
+            }
+        }
     }
 
     fn __state4<
@@ -317,17 +393,18 @@ mod __parse__O {
         input: &'input str,
         __tokens: &mut __TOKENS,
         __lookahead: Option<(usize, Token<'input>, usize)>,
-        __sym0: (usize, String, usize),
+        __sym0: (usize, usize, usize),
         _: core::marker::PhantomData<(&'input ())>,
     ) -> Result<(Option<(usize, Token<'input>, usize)>, __Nonterminal<'input>), __lalrpop_util::ParseError<usize, Token<'input>, &'static str>>
     {
         let mut __result: (Option<(usize, Token<'input>, usize)>, __Nonterminal<'input>);
         match __lookahead {
+            Some((_, Token(4, _), _)) |
             None => {
                 let __start = __sym0.0.clone();
                 let __end = __sym0.2.clone();
-                let __nt = super::__action24::<>(input, __sym0);
-                let __nt = __Nonterminal::Sp_3cId_3e((
+                let __nt = super::__action16::<>(input, __sym0);
+                let __nt = __Nonterminal::Item_2b((
                     __start,
                     __nt,
                     __end,
@@ -338,6 +415,7 @@ mod __parse__O {
             _ => {
                 #[allow(clippy::needless_raw_string_hashes)]
                 let __expected = alloc::vec![
+                    r###""d""###.to_string(),
                 ];
                 return Err(
                     match __lookahead {
@@ -367,28 +445,21 @@ mod __parse__O {
         input: &'input str,
         __tokens: &mut __TOKENS,
         __lookahead: Option<(usize, Token<'input>, usize)>,
-        __sym0: (usize, (usize, usize), usize),
-        __sym1: (usize, (usize, String, usize), usize),
+        __sym0: (usize, Option<(Option<&'input str>, &'input str, Option<&'input str>)>, usize),
         _: core::marker::PhantomData<(&'input ())>,
     ) -> Result<(Option<(usize, Token<'input>, usize)>, __Nonterminal<'input>), __lalrpop_util::ParseError<usize, Token<'input>, &'static str>>
     {
         let mut __result: (Option<(usize, Token<'input>, usize)>, __Nonterminal<'input>);
         match __lookahead {
-            None => {
-                let __start = __sym0.0.clone();
-                let __end = __sym1.2.clone();
-                let __nt = super::__action7::<>(input, __sym0, __sym1);
-                let __nt = __Nonterminal::O((
-                    __start,
-                    __nt,
-                    __end,
-                ));
-                __result = (__lookahead, __nt);
+            Some((__loc1, Token(0, __tok0), __loc2)) => {
+                let __sym1 = (__loc1, (__tok0), __loc2);
+                __result = __state8(input, __tokens, __sym0, __sym1, core::marker::PhantomData::<(&())>)?;
                 return Ok(__result);
             }
             _ => {
                 #[allow(clippy::needless_raw_string_hashes)]
                 let __expected = alloc::vec![
+                    r###"",""###.to_string(),
                 ];
                 return Err(
                     match __lookahead {
@@ -399,7 +470,7 @@ mod __parse__O {
                             }
                         }
                         None => {
-                            let __location = __sym1.2.clone();
+                            let __location = __sym0.2.clone();
                             __lalrpop_util::ParseError::UnrecognizedEof {
                                 location: __location,
                                 expected: __expected,
@@ -417,539 +488,13 @@ mod __parse__O {
     >(
         input: &'input str,
         __tokens: &mut __TOKENS,
-        __sym0: (usize, &'input str, usize),
-        _: core::marker::PhantomData<(&'input ())>,
-    ) -> Result<(Option<(usize, Token<'input>, usize)>, __Nonterminal<'input>), __lalrpop_util::ParseError<usize, Token<'input>, &'static str>>
-    {
-        let mut __result: (Option<(usize, Token<'input>, usize)>, __Nonterminal<'input>);
-        let __lookahead = match __tokens.next() {
-            Some(Ok(v)) => Some(v),
-            Some(Err(e)) => return Err(e),
-            None => None,
-        };
-        match __lookahead {
-            None => {
-                let __start = __sym0.0.clone();
-                let __end = __sym0.2.clone();
-                let __nt = super::__action5::<>(input, __sym0);
-                let __nt = __Nonterminal::Id((
-                    __start,
-                    __nt,
-                    __end,
-                ));
-                __result = (__lookahead, __nt);
-                return Ok(__result);
-            }
-            _ => {
-                #[allow(clippy::needless_raw_string_hashes)]
-                let __expected = alloc::vec![
-                ];
-                return Err(
-                    match __lookahead {
-                        Some(__token) => {
-                            __lalrpop_util::ParseError::UnrecognizedToken {
-                                token: __token,
-                                expected: __expected,
-                            }
-                        }
-                        None => {
-                            let __location = __sym0.2.clone();
-                            __lalrpop_util::ParseError::UnrecognizedEof {
-                                location: __location,
-                                expected: __expected,
-                            }
-                        }
-                    }
-                )
-            }
-        }
-    }
-}
-#[allow(unused_imports)]
-pub use self::__parse__O::OParser;
-
-#[rustfmt::skip]
-#[allow(explicit_outlives_requirements, non_snake_case, non_camel_case_types, unused_mut, unused_variables, unused_imports, unused_parens, clippy::needless_lifetimes, clippy::type_complexity, clippy::needless_return, clippy::too_many_arguments, clippy::match_single_binding, clippy::clone_on_copy, clippy::unit_arg)]
-mod __parse__P {
-
-    #[allow(unused_extern_crates)]
-    extern crate lalrpop_util as __lalrpop_util;
-    #[allow(unused_imports)]
-    use self::__lalrpop_util::state_machine as __state_machine;
-    #[allow(unused_extern_crates)]
-    extern crate alloc;
-    use self::__lalrpop_util::lexer::Token;
-    pub struct PParser {
-        builder: __lalrpop_util::lexer::MatcherBuilder,
-        _priv: (),
-    }
-
-    impl Default for PParser { fn default() -> Self { Self::new() } }
-    impl PParser {
-        pub fn new() -> PParser {
-            let __builder = super::__intern_token::new_builder();
-            PParser {
-                builder: __builder,
-                _priv: (),
-            }
-        }
-
-        #[allow(dead_code)]
-        pub fn parse<
-            'input,
-        >(
-            &self,
-            input: &'input str,
-        ) -> Result<(usize, usize, usize), __lalrpop_util::ParseError<usize, Token<'input>, &'static str>>
-        {
-            let mut __tokens = self.builder.matcher(input);
-            let __lookahead = match __tokens.next() {
-                Some(Ok(v)) => Some(v),
-                Some(Err(e)) => return Err(e),
-                None => None,
-            };
-            match __state0(input, &mut __tokens, __lookahead, core::marker::PhantomData::<(&())>)? {
-                (Some(__lookahead), _) => {
-                    Err(__lalrpop_util::ParseError::ExtraToken { token: __lookahead })
-                }
-                (None, __Nonterminal::____P((_, __nt, _))) => {
-                    Ok(__nt)
-                }
-                _ => unreachable!(),
-            }
-        }
-    }
-
-    #[allow(dead_code)]
-    enum __Nonterminal<'input>
-     {
-        _22_21_22_3f((usize, Option<&'input str>, usize)),
-        _40L((usize, usize, usize)),
-        _40R((usize, usize, usize)),
-        Gap_3c_22_28_22_2c_20_22_29_22_3e((usize, (usize, usize, usize), usize)),
-        Id((usize, String, usize)),
-        O((usize, ((usize, usize), (usize, String, usize)), usize)),
-        Opt_3c_22_21_22_3e((usize, (usize, usize), usize)),
-        P((usize, (usize, usize, usize), usize)),
-        S((usize, Vec<(usize, String, usize)>, usize)),
-        Sp_3cId_3e((usize, (usize, String, usize), usize)),
-        ____O((usize, ((usize, usize), (usize, String, usize)), usize)),
-        ____P((usize, (usize, usize, usize), usize)),
-        ____S((usize, Vec<(usize, String, usize)>, usize)),
-    }
-
-    fn __state0<
-        'input,
-        __TOKENS: Iterator<Item=Result<(usize, Token<'input>, usize),__lalrpop_util::ParseError<usize, Token<'input>, &'static str>>>,
-    >(
-        input: &'input str,
-        __tokens: &mut __TOKENS,
         __lookahead: Option<(usize, Token<'input>, usize)>,
+        __sym0: (usize, Vec<usize>, usize),
         _: core::marker::PhantomData<(&'input ())>,
     ) -> Result<(Option<(usize, Token<'input>, usize)>, __Nonterminal<'input>), __lalrpop_util::ParseError<usize, Token<'input>, &'static str>>
     {
         let mut __result: (Option<(usize, Token<'input>, usize)>, __Nonterminal<'input>);
         match __lookahead {
-            Some((__loc1, Token(2, __tok0), __loc2)) => {
-                let __sym0 = (__loc1, (__tok0), __loc2);
-                __result = __state3(input, __tokens, __sym0, core::marker::PhantomData::<(&())>)?;
-            }
-            _ => {
-                #[allow(clippy::needless_raw_string_hashes)]
-                let __expected = alloc::vec![
-                    r###""(""###.to_string(),
-                ];
-                return Err(
-                    match __lookahead {
-                        Some(__token) => {
-                            __lalrpop_util::ParseError::UnrecognizedToken {
-                                token: __token,
-                                expected: __expected,
-                            }
-                        }
-                        None => {
-                            let __location = Default::default();
-                            __lalrpop_util::ParseError::UnrecognizedEof {
-                                location: __location,
-                                expected: __expected,
-                            }
-                        }
-                    }
-                )
-            }
-        }
-        #[allow(clippy::never_loop)]
-        loop {
-            let (__lookahead, __nt) = __result;
-            match __nt {
-                __Nonterminal::Gap_3c_22_28_22_2c_20_22_29_22_3e(__sym0) => {
-                    __result = __state1(input, __tokens, __lookahead, __sym0, core::marker::PhantomData::<(&())>)?;
-                }
-                __Nonterminal::P(__sym0) => {
-                    __result = __state2(input, __tokens, __lookahead, __sym0, core::marker::PhantomData::<(&())>)?;
-                }
-                _ => {
-                    return Ok((__lookahead, __nt));
-                }
-            }
-        }
-    }
-
-    fn __state1<
-        'input,
-        __TOKENS: Iterator<Item=Result<(usize, Token<'input>, usize),__lalrpop_util::ParseError<usize, Token<'input>, &'static str>>>,
-    >(
-        input: &'input str,
-        __tokens: &mut __TOKENS,
-        __lookahead: Option<(usize, Token<'input>, usize)>,
-        __sym0: (usize, (usize, usize, usize), usize),
-        _: core::marker::PhantomData<(&'input ())>,
-    ) -> Result<(Option<(usize, Token<'input>, usize)>, __Nonterminal<'input>), __lalrpop_util::ParseError<usize, Token<'input>, &'static str>>
-    {
-        let mut __result: (Option<(usize, Token<'input>, usize)>, __Nonterminal<'input>);
-        match __lookahead {
-            None => {
-                let __start = __sym0.0.clone();
-                let __end = __sym0.2.clone();
-                let __nt = super::__action6::<>(input, __sym0);
-                let __nt = __Nonterminal::P((
-                    __start,
-                    __nt,
-                    __end,
-                ));
-                __result = (__lookahead, __nt);
-                return Ok(__result);
-            }
-            _ => {
-                #[allow(clippy::needless_raw_string_hashes)]
-                let __expected = alloc::vec![
-                ];
-                return Err(
-                    match __lookahead {
-                        Some(__token) => {
-                            __lalrpop_util::ParseError::UnrecognizedToken {
-                                token: __token,
-                                expected: __expected,
-                            }
-                        }
-                        None => {
-                            let __location = __sym0.2.clone();
-                            __lalrpop_util::ParseError::UnrecognizedEof {
-                                location: __location,
-                                expected: __expected,
-                            }
-                        }
-                    }
-                )
-            }
-        }
-    }
-
-    fn __state2<
-        'input,
-        __TOKENS: Iterator<Item=Result<(usize, Token<'input>, usize),__lalrpop_util::ParseError<usize, Token<'input>, &'static str>>>,
-    >(
-        input: &'input str,
-        __tokens: &mut __TOKENS,
-        __lookahead: Option<(usize, Token<'input>, usize)>,
-        __sym0: (usize, (usize, usize, usize), usize),
-        _: core::marker::PhantomData<(&'input ())>,
-    ) -> Result<(Option<(usize, Token<'input>, usize)>, __Nonterminal<'input>), __lalrpop_util::ParseError<usize, Token<'input>, &'static str>>
-    {
-        let mut __result: (Option<(usize, Token<'input>, usize)>, __Nonterminal<'input>);
-        match __lookahead {
-            None => {
-                let __start = __sym0.0.clone();
-                let __end = __sym0.2.clone();
-                let __nt = super::__action1::<>(input, __sym0);
-                let __nt = __Nonterminal::____P((
-                    __start,
-                    __nt,
-                    __end,
-                ));
-                __result = (__lookahead, __nt);
-                return Ok(__result);
-            }
-            _ => {
-                #[allow(clippy::needless_raw_string_hashes)]
-                let __expected = alloc::vec![
-                ];
-                return Err(
-                    match __lookahead {
-                        Some(__token) => {
-                            __lalrpop_util::ParseError::UnrecognizedToken {
-                                token: __token,
-                                expected: __expected,
-                            }
-                        }
-                        None => {
-                            let __location = __sym0.2.clone();
-                            __lalrpop_util::ParseError::UnrecognizedEof {
-                                location: __location,
-                                expected: __expected,
-                            }
-                        }
-                    }
-                )
-            }
-        }
-    }
-
-    fn __state3<
-        'input,
-        __TOKENS: Iterator<Item=Result<(usize, Token<'input>, usize),__lalrpop_util::ParseError<usize, Token<'input>, &'static str>>>,
-    >(
-        input: &'input str,
-        __tokens: &mut __TOKENS,
-        __sym0: (usize, &'input str, usize),
-        _: core::marker::PhantomData<(&'input ())>,
-    ) -> Result<(Option<(usize, Token<'input>, usize)>, __Nonterminal<'input>), __lalrpop_util::ParseError<usize, Token<'input>, &'static str>>
-    {
-        let mut __result: (Option<(usize, Token<'input>, usize)>, __Nonterminal<'input>);
-        let __lookahead = match __tokens.next() {
-            Some(Ok(v)) => Some(v),
-            Some(Err(e)) => return Err(e),
-            None => None,
-        };
-        match __lookahead {
-            Some((__loc1, Token(3, __tok0), __loc2)) => {
-                let __sym1 = (__loc1, (__tok0), __loc2);
-                __result = __state4(input, __tokens, __sym0, __sym1, core::marker::PhantomData::<(&())>)?;
-                return Ok(__result);
-            }
-            _ => {
-                #[allow(clippy::needless_raw_string_hashes)]
-                let __expected = alloc::vec![
-                    r###"")""###.to_string(),
-                ];
-                return Err(
-                    match __lookahead {
-                        Some(__token) => {
-                            __lalrpop_util::ParseError::UnrecognizedToken {
-                                token: __token,
-                                expected: __expected,
-                            }
-                        }
-                        None => {
-                            let __location = __sym0.2.clone();
-                            __lalrpop_util::ParseError::UnrecognizedEof {
-                                location: __location,
-                                expected: __expected,
-                            }
-                        }
-                    }
-                )
-            }
-        }
-    }
-
-    fn __state4<
-        'input,
-        __TOKENS: Iterator<Item=Result<(usize, Token<'input>, usize),__lalrpop_util::ParseError<usize, Token<'input>, &'static str>>>,
-    >(
-        input: &'input str,
-        __tokens: &mut __TOKENS,
-        __sym0: (usize, &'input str, usize),
-        __sym1: (usize, &'input str, usize),
-        _: core::marker::PhantomData<(&'input ())>,
-    ) -> Result<(Option<(usize, Token<'input>, usize)>, __Nonterminal<'input>), __lalrpop_util::ParseError<usize, Token<'input>, &'static str>>
-    {
-        let mut __result: (Option<(usize, Token<'input>, usize)>, __Nonterminal<'input>);
-        let __lookahead = match __tokens.next() {
-            Some(Ok(v)) => Some(v),
-            Some(Err(e)) => return Err(e),
-            None => None,
-        };
-        match __lookahead {
-            None => {
-                let __start = __sym0.0.clone();
-                let __end = __sym1.2.clone();
-                let __nt = super::__action21::<>(input, __sym0, __sym1);
-                let __nt = __Nonterminal::Gap_3c_22_28_22_2c_20_22_29_22_3e((
-                    __start,
-                    __nt,
-                    __end,
-                ));
-                __result = (__lookahead, __nt);
-                return Ok(__result);
-            }
-            _ => {
-                #[allow(clippy::needless_raw_string_hashes)]
-                let __expected = alloc::vec![
-                ];
-                return Err(
-                    match __lookahead {
-                        Some(__token) => {
-                            __lalrpop_util::ParseError::UnrecognizedToken {
-                                token: __token,
-                                expected: __expected,
-                            }
-                        }
-                        None => {
-                            let __location = __sym1.2.clone();
-                            __lalrpop_util::ParseError::UnrecognizedEof {
-                                location: __location,
-                                expected: __expected,
-                            }
-                        }
-                    }
-                )
-            }
-        }
-    }
-}
-#[allow(unused_imports)]
-pub use self::__parse__P::PParser;
-
-#[rustfmt::skip]
-#[allow(explicit_outlives_requirements, non_snake_case, non_camel_case_types, unused_mut, unused_variables, unused_imports, unused_parens, clippy::needless_lifetimes, clippy::type_complexity, clippy::needless_return, clippy::too_many_arguments, clippy::match_single_binding, clippy::clone_on_copy, clippy::unit_arg)]
-mod __parse__S {
-
-    #[allow(unused_extern_crates)]
-    extern crate lalrpop_util as __lalrpop_util;
-    #[allow(unused_imports)]
-    use self::__lalrpop_util::state_machine as __state_machine;
-    #[allow(unused_extern_crates)]
-    extern crate alloc;
-    use self::__lalrpop_util::lexer::Token;
-    pub struct SParser {
-        builder: __lalrpop_util::lexer::MatcherBuilder,
-        _priv: (),
-    }
-
-    impl Default for SParser { fn default() -> Self { Self::new() } }
-    impl SParser {
-        pub fn new() -> SParser {
-            let __builder = super::__intern_token::new_builder();
-            SParser {
-                builder: __builder,
-                _priv: (),
-            }
-        }
-
-        #[allow(dead_code)]
-        pub fn parse<
-            'input,
-        >(
-            &self,
-            input: &'input str,
-        ) -> Result<Vec<(usize, String, usize)>, __lalrpop_util::ParseError<usize, Token<'input>, &'static str>>
-        {
-            let mut __tokens = self.builder.matcher(input);
-            let __lookahead = match __tokens.next() {
-                Some(Ok(v)) => Some(v),
-                Some(Err(e)) => return Err(e),
-                None => None,
-            };
-            match __state0(input, &mut __tokens, __lookahead, core::marker::PhantomData::<(&())>)? {
-                (Some(__lookahead), _) => {
-                    Err(__lalrpop_util::ParseError::ExtraToken { token: __lookahead })
-                }
-                (None, __Nonterminal::____S((_, __nt, _))) => {
-                    Ok(__nt)
-                }
-                _ => unreachable!(),
-            }
-        }
-    }
-
-    #[allow(dead_code)]
-    enum __Nonterminal<'input>
-     {
-        _22_21_22_3f((usize, Option<&'input str>, usize)),
-        _40L((usize, usize, usize)),
-        _40R((usize, usize, usize)),
-        Gap_3c_22_28_22_2c_20_22_29_22_3e((usize, (usize, usize, usize), usize)),
-        Id((usize, String, usize)),
-        O((usize, ((usize, usize), (usize, String, usize)), usize)),
-        Opt_3c_22_21_22_3e((usize, (usize, usize), usize)),
-        P((usize, (usize, usize, usize), usize)),
-        S((usize, Vec<(usize, String, usize)>, usize)),
-        Sp_3cId_3e((usize, (usize, String, usize), usize)),
-        ____O((usize, ((usize, usize), (usize, String, usize)), usize)),
-        ____P((usize, (usize, usize, usize), usize)),
-        ____S((usize, Vec<(usize, String, usize)>, usize)),
-    }
-
-    fn __state0<
-        'input,
-        __TOKENS: Iterator<Item=Result<(usize, Token<'input>, usize),__lalrpop_util::ParseError<usize, Token<'input>, &'static str>>>,
-    >(
-        input: &'input str,
-        __tokens: &mut __TOKENS,
-        __lookahead: Option<(usize, Token<'input>, usize)>,
-        _: core::marker::PhantomData<(&'input ())>,
-    ) -> Result<(Option<(usize, Token<'input>, usize)>, __Nonterminal<'input>), __lalrpop_util::ParseError<usize, Token<'input>, &'static str>>
-    {
-        let mut __result: (Option<(usize, Token<'input>, usize)>, __Nonterminal<'input>);
-        match __lookahead {
-            Some((_, Token(0, _), _)) |
-            None => {
-                let __start: usize = __lookahead.as_ref().map(|o| o.0.clone()).unwrap_or_default();
-                let __end = __start.clone();
-                let __nt = super::__action4::<>(input, &__start, &__end);
-                let __nt = __Nonterminal::S((
-                    __start,
-                    __nt,
-                    __end,
-                ));
-                __result = (__lookahead, __nt);
-            }
-            _ => {
-                #[allow(clippy::needless_raw_string_hashes)]
-                let __expected = alloc::vec![
-                    r###"r#"[a-z]+"#"###.to_string(),
-                ];
-                return Err(
-                    match __lookahead {
-                        Some(__token) => {
-                            __lalrpop_util::ParseError::UnrecognizedToken {
-                                token: __token,
-                                expected: __expected,
-                            }
-                        }
-                        None => {
-                            let __location = Default::default();
-                            __lalrpop_util::ParseError::UnrecognizedEof {
-                                location: __location,
-                                expected: __expected,
-                            }
-                        }
-                    }
-                )
-            }
-        }
-        #[allow(clippy::never_loop)]
-        loop {
-            let (__lookahead, __nt) = __result;
-            match __nt {
-                __Nonterminal::S(__sym0) => {
-                    __result = __state1(input, __tokens, __lookahead, __sym0, core::marker::PhantomData::<(&())>)?;
-                }
-                _ => {
-                    return Ok((__lookahead, __nt));
-                }
-            }
-        }
-    }
-
-    fn __state1<
-        'input,
-        __TOKENS: Iterator<Item=Result<(usize, Token<'input>, usize),__lalrpop_util::ParseError<usize, Token<'input>, &'static str>>>,
-    >(
-        input: &'input str,
-        __tokens: &mut __TOKENS,
-        __lookahead: Option<(usize, Token<'input>, usize)>,
-        __sym0: (usize, Vec<(usize, String, usize)>, usize),
-        _: core::marker::PhantomData<(&'input ())>,
-    ) -> Result<(Option<(usize, Token<'input>, usize)>, __Nonterminal<'input>), __lalrpop_util::ParseError<usize, Token<'input>, &'static str>>
-    {
-        let mut __result: (Option<(usize, Token<'input>, usize)>, __Nonterminal<'input>);
-        match __lookahead {
-            Some((__loc1, Token(0, __tok0), __loc2)) => {
-                let __sym1 = (__loc1, (__tok0), __loc2);
-                __result = __state4(input, __tokens, __sym1, core::marker::PhantomData::<(&())>)?;
-            }
             None => {
                 let __start = __sym0.0.clone();
                 let __end = __sym0.2.clone();
@@ -965,75 +510,6 @@ mod __parse__S {
             _ => {
                 #[allow(clippy::needless_raw_string_hashes)]
                 let __expected = alloc::vec![
-                    r###"r#"[a-z]+"#"###.to_string(),
-                ];
-                return Err(
-                    match __lookahead {
-                        Some(__token) => {
-                            __lalrpop_util::ParseError::UnrecognizedToken {
-                                token: __token,
-                                expected: __expected,
-                            }
-                        }
-                        None => {
-                            let __location = __sym0.2.clone();
-                            __lalrpop_util::ParseError::UnrecognizedEof {
-                                location: __location,
-                                expected: __expected,
-                            }
-                        }
-                    }
-                )
-            }
-        }
-        #[allow(clippy::never_loop)]
-        loop {
-            let (__lookahead, __nt) = __result;
-            match __nt {
-                __Nonterminal::Id(__sym1) => {
-                    __result = __state2(input, __tokens, __lookahead, __sym1, core::marker::PhantomData::<(&())>)?;
-                }
-                __Nonterminal::Sp_3cId_3e(__sym1) => {
-                    __result = __state3(input, __tokens, __lookahead, __sym0, __sym1, core::marker::PhantomData::<(&())>)?;
-                    return Ok(__result);
-                }
-                _ => {
-                    return Ok((__lookahead, __nt));
-                }
-            }
-        }
-    }
-
-    fn __state2<
-        'input,
-        __TOKENS: Iterator<Item=Result<(usize, Token<'input>, usize),__lalrpop_util::ParseError<usize, Token<'input>, &'static str>>>,
-    >(
-        input: &'input str,
-        __tokens: &mut __TOKENS,
-        __lookahead: Option<(usize, Token<'input>, usize)>,
-        __sym0: (usize, String, usize),
-        _: core::marker::PhantomData<(&'input ())>,
-    ) -> Result<(Option<(usize, Token<'input>, usize)>, __Nonterminal<'input>), __lalrpop_util::ParseError<usize, Token<'input>, &'static str>>
-    {
-        let mut __result: (Option<(usize, Token<'input>, usize)>, __Nonterminal<'input>);
-        match __lookahead {
-            Some((_, Token(0, _), _)) |
-            None => {
-                let __start = __sym0.0.clone();
-                let __end = __sym0.2.clone();
-                let __nt = super::__action24::<>(input, __sym0);
-                let __nt = __Nonterminal::Sp_3cId_3e((
-                    __start,
-                    __nt,
-                    __end,
-                ));
-                __result = (__lookahead, __nt);
-                return Ok(__result);
-            }
-            _ => {
-                #[allow(clippy::needless_raw_string_hashes)]
-                let __expected = alloc::vec![
-                    r###"r#"[a-z]+"#"###.to_string(),
                 ];
                 return Err(
                     match __lookahead {
@@ -1056,26 +532,26 @@ mod __parse__S {
         }
     }
 
-    fn __state3<
+    fn __state7<
         'input,
         __TOKENS: Iterator<Item=Result<(usize, Token<'input>, usize),__lalrpop_util::ParseError<usize, Token<'input>, &'static str>>>,
     >(
         input: &'input str,
         __tokens: &mut __TOKENS,
         __lookahead: Option<(usize, Token<'input>, usize)>,
-        __sym0: (usize, Vec<(usize, String, usize)>, usize),
-        __sym1: (usize, (usize, String, usize), usize),
+        __sym0: (usize, alloc::vec::Vec<usize>, usize),
+        __sym1: (usize, usize, usize),
         _: core::marker::PhantomData<(&'input ())>,
     ) -> Result<(Option<(usize, Token<'input>, usize)>, __Nonterminal<'input>), __lalrpop_util::ParseError<usize, Token<'input>, &'static str>>
     {
         let mut __result: (Option<(usize, Token<'input>, usize)>, __Nonterminal<'input>);
         match __lookahead {
-            Some((_, Token(0, _), _)) |
+            Some((_, Token(4, _), _)) |
             None => {
                 let __start = __sym0.0.clone();
                 let __end = __sym1.2.clone();
-                let __nt = super::__action3::<>(input, __sym0, __sym1);
-                let __nt = __Nonterminal::S((
+                let __nt = super::__action17::<>(input, __sym0, __sym1);
+                let __nt = __Nonterminal::Item_2b((
                     __start,
                     __nt,
                     __end,
@@ -1086,7 +562,7 @@ mod __parse__S {
             _ => {
                 #[allow(clippy::needless_raw_string_hashes)]
                 let __expected = alloc::vec![
-                    r###"r#"[a-z]+"#"###.to_string(),
+                    r###""d""###.to_string(),
                 ];
                 return Err(
                     match __lookahead {
@@ -1109,7 +585,160 @@ mod __parse__S {
         }
     }
 
-    fn __state4<
+    fn __state8<
+        'input,
+        __TOKENS: Iterator<Item=Result<(usize, Token<'input>, usize),__lalrpop_util::ParseError<usize, Token<'input>, &'static str>>>,
+    >(
+        input: &'input str,
+        __tokens: &mut __TOKENS,
+        __sym0: (usize, Option<(Option<&'input str>, &'input str, Option<&'input str>)>, usize),
+        __sym1: (usize, &'input str, usize),
+        _: core::marker::PhantomData<(&'input ())>,
+    ) -> Result<(Option<(usize, Token<'input>, usize)>, __Nonterminal<'input>), __lalrpop_util::ParseError<usize, Token<'input>, &'static str>>
+    {
+        let mut __result: (Option<(usize, Token<'input>, usize)>, __Nonterminal<'input>);
+        let __lookahead = match __tokens.next() {
+            Some(Ok(v)) => Some(v),
+            Some(Err(e)) => return Err(e),
+            None => None,
+        };
+        match __lookahead {
+            Some((_, Token(4, _), _)) |
+            None => {
+                let __start = __sym0.0.clone();
+                let __end = __sym1.2.clone();
+                let __nt = super::__action2::<>(input, __sym0, __sym1);
+                let __nt = __Nonterminal::Item((
+                    __start,
+                    __nt,
+                    __end,
+                ));
+                __result = (__lookahead, __nt);
+                return Ok(__result);
+            }
+            _ => {
+                #[allow(clippy::needless_raw_string_hashes)]
+                let __expected = alloc::vec![
+                    r###""d""###.to_string(),
+                ];
+                return Err(
+                    match __lookahead {
+                        Some(__token) => {
+                            __lalrpop_util::ParseError::UnrecognizedToken {
+                                token: __token,
+                                expected: __expected,
+                            }
+                        }
+                        None => {
+                            let __location = __sym1.2.clone();
+                            __lalrpop_util::ParseError::UnrecognizedEof {
+                                location: __location,
+                                expected: __expected,
+                            }
+                        }
+                    }
+                )
+            }
+        }
+    }
+
+    fn __state9<
+        'input,
+        __TOKENS: Iterator<Item=Result<(usize, Token<'input>, usize),__lalrpop_util::ParseError<usize, Token<'input>, &'static str>>>,
+    >(
+        input: &'input str,
+        __tokens: &mut __TOKENS,
+        __lookahead: Option<(usize, Token<'input>, usize)>,
+        __sym0: (usize, &'input str, usize),
+        __sym1: (usize, (Option<&'input str>, &'input str, Option<&'input str>), usize),
+        _: core::marker::PhantomData<(&'input ())>,
+    ) -> Result<(Option<(usize, Token<'input>, usize)>, __Nonterminal<'input>), __lalrpop_util::ParseError<usize, Token<'input>, &'static str>>
+    {
+        let mut __result: (Option<(usize, Token<'input>, usize)>, __Nonterminal<'input>);
+        match __lookahead {
+            Some((_, Token(0, _), _)) => {
+                let __start = __sym0.0.clone();
+                let __end = __sym1.2.clone();
+                let __nt = super::__action24::<>(input, __sym0, __sym1);
+                let __nt = __Nonterminal::N0((
+                    __start,
+                    __nt,
+                    __end,
+                ));
+                __result = (__lookahead, __nt);
+                return Ok(__result);
+            }
+            _ => {
+                #[allow(clippy::needless_raw_string_hashes)]
+                let __expected = alloc::vec![
+                    r###"",""###.to_string(),
+                ];
+                return Err(
+                    match __lookahead {
+                        Some(__token) => {
+                            __lalrpop_util::ParseError::UnrecognizedToken {
+                                token: __token,
+                                expected: __expected,
+                            }
+                        }
+                        None => {
+                            let __location = __sym1.2.clone();
+                            __lalrpop_util::ParseError::UnrecognizedEof {
+                                location: __location,
+                                expected: __expected,
+                            }
+                        }
+                    }
+                )
+            }
+        }
+    }
+
+    fn __state10<
+        'input,
+        __TOKENS: Iterator<Item=Result<(usize, Token<'input>, usize),__lalrpop_util::ParseError<usize, Token<'input>, &'static str>>>,
+    >(
+        input: &'input str,
+        __tokens: &mut __TOKENS,
+        __lookahead: Option<(usize, Token<'input>, usize)>,
+        __sym0: (usize, Option<&'input str>, usize),
+        _: core::marker::PhantomData<(&'input ())>,
+    ) -> Result<(Option<(usize, Token<'input>, usize)>, __Nonterminal<'input>), __lalrpop_util::ParseError<usize, Token<'input>, &'static str>>
+    {
+        let mut __result: (Option<(usize, Token<'input>, usize)>, __Nonterminal<'input>);
+        match __lookahead {
+            Some((__loc1, Token(4, __tok0), __loc2)) => {
+                let __sym1 = (__loc1, (__tok0), __loc2);
+                __result = __state3(input, __tokens, __sym0, __sym1, core::marker::PhantomData::<(&())>)?;
+                return Ok(__result);
+            }
+            _ => {
+                #[allow(clippy::needless_raw_string_hashes)]
+                let __expected = alloc::vec![
+                    r###""d""###.to_string(),
+                ];
+                return Err(
+                    match __lookahead {
+                        Some(__token) => {
+                            __lalrpop_util::ParseError::UnrecognizedToken {
+                                token: __token,
+                                expected: __expected,
+                            }
+                        }
+                        None => {
+                            let __location = __sym0.2.clone();
+                            __lalrpop_util::ParseError::UnrecognizedEof {
+                                location: __location,
+                                expected: __expected,
+                            }
+                        }
+                    }
+                )
+            }
+        }
+    }
+
+    fn __state11<
         'input,
         __TOKENS: Iterator<Item=Result<(usize, Token<'input>, usize),__lalrpop_util::ParseError<usize, Token<'input>, &'static str>>>,
     >(
@@ -1127,11 +756,11 @@ mod __parse__S {
         };
         match __lookahead {
             Some((_, Token(0, _), _)) |
-            None => {
+            Some((_, Token(4, _), _)) => {
                 let __start = __sym0.0.clone();
                 let __end = __sym0.2.clone();
-                let __nt = super::__action5::<>(input, __sym0);
-                let __nt = __Nonterminal::Id((
+                let __nt = super::__action18::<>(input, __sym0);
+                let __nt = __Nonterminal::N4((
                     __start,
                     __nt,
                     __end,
@@ -1142,7 +771,8 @@ mod __parse__S {
             _ => {
                 #[allow(clippy::needless_raw_string_hashes)]
                 let __expected = alloc::vec![
-                    r###"r#"[a-z]+"#"###.to_string(),
+                    r###"",""###.to_string(),
+                    r###""d""###.to_string(),
                 ];
                 return Err(
                     match __lookahead {
@@ -1154,6 +784,59 @@ mod __parse__S {
                         }
                         None => {
                             let __location = __sym0.2.clone();
+                            __lalrpop_util::ParseError::UnrecognizedEof {
+                                location: __location,
+                                expected: __expected,
+                            }
+                        }
+                    }
+                )
+            }
+        }
+    }
+
+    fn __state12<
+        'input,
+        __TOKENS: Iterator<Item=Result<(usize, Token<'input>, usize),__lalrpop_util::ParseError<usize, Token<'input>, &'static str>>>,
+    >(
+        input: &'input str,
+        __tokens: &mut __TOKENS,
+        __lookahead: Option<(usize, Token<'input>, usize)>,
+        __sym0: (usize, Option<&'input str>, usize),
+        __sym1: (usize, &'input str, usize),
+        __sym2: (usize, Option<&'input str>, usize),
+        _: core::marker::PhantomData<(&'input ())>,
+    ) -> Result<(Option<(usize, Token<'input>, usize)>, __Nonterminal<'input>), __lalrpop_util::ParseError<usize, Token<'input>, &'static str>>
+    {
+        let mut __result: (Option<(usize, Token<'input>, usize)>, __Nonterminal<'input>);
+        match __lookahead {
+            Some((_, Token(0, _), _)) => {
+                let __start = __sym0.0.clone();
+                let __end = __sym2.2.clone();
+                let __nt = super::__action6::<>(input, __sym0, __sym1, __sym2);
+                let __nt = __Nonterminal::N3((
+                    __start,
+                    __nt,
+                    __end,
+                ));
+                __result = (__lookahead, __nt);
+                return Ok(__result);
+            }
+            _ => {
+                #[allow(clippy::needless_raw_string_hashes)]
+                let __expected = alloc::vec![
+                    r###"",""###.to_string(),
+                ];
+                return Err(
+                    match __lookahead {
+                        Some(__token) => {
+                            __lalrpop_util::ParseError::UnrecognizedToken {
+                                token: __token,
+                                expected: __expected,
+                            }
+                        }
+                        None => {
+                            let __location = __sym2.2.clone();
                             __lalrpop_util::ParseError::UnrecognizedEof {
                                 location: __location,
                                 expected: __expected,
@@ -1170,6 +853,7 @@ pub use self::__parse__S::SParser;
 #[rustfmt::skip]
 mod __intern_token {
     #![allow(unused_imports)]
+    use crate::support::*;
     #[allow(unused_extern_crates)]
     extern crate lalrpop_util as __lalrpop_util;
     #[allow(unused_imports)]
@@ -1178,10 +862,11 @@ mod __intern_token {
     extern crate alloc;
     pub fn new_builder() -> __lalrpop_util::lexer::MatcherBuilder {
         let __strs: &[(&str, bool)] = &[
-            ("[a-z]+", false),
-            ("!", false),
-            ("\\(", false),
-            ("\\)", false),
+            (",", false),
+            ("a", false),
+            ("b", false),
+            ("c", false),
+            ("d", false),
             (r"\s+", true),
         ];
         __lalrpop_util::lexer::MatcherBuilder::new(__strs.iter().copied()).unwrap()
@@ -1195,8 +880,8 @@ fn __action0<
     'input,
 >(
     input: &'input str,
-    (_, __0, _): (usize, Vec<(usize, String, usize)>, usize),
-) -> Vec<(usize, String, usize)>
+    (_, __0, _): (usize, Vec<usize>, usize),
+) -> Vec<usize>
 {
     __0
 }
@@ -1207,10 +892,12 @@ fn __action1<
     'input,
 >(
     input: &'input str,
-    (_, __0, _): (usize, (usize, usize, usize), usize),
-) -> (usize, usize, usize)
+    (_, l, _): (usize, usize, usize),
+    (_, xs, _): (usize, alloc::vec::Vec<usize>, usize),
+    (_, r, _): (usize, usize, usize),
+) -> Vec<usize>
 {
-    __0
+    { let _ = (&l, &r); xs }
 }
 
 #[allow(unused_variables)]
@@ -1219,10 +906,11 @@ fn __action2<
     'input,
 >(
     input: &'input str,
-    (_, __0, _): (usize, ((usize, usize), (usize, String, usize)), usize),
-) -> ((usize, usize), (usize, String, usize))
+    (_, x, _): (usize, Option<(Option<&'input str>, &'input str, Option<&'input str>)>, usize),
+    (_, _, _): (usize, &'input str, usize),
+) -> usize
 {
-    __0
+    sz(&x)
 }
 
 #[allow(unused_variables)]
@@ -1231,11 +919,11 @@ fn __action3<
     'input,
 >(
     input: &'input str,
-    (_, v, _): (usize, Vec<(usize, String, usize)>, usize),
-    (_, x, _): (usize, (usize, String, usize), usize),
-) -> Vec<(usize, String, usize)>
+    (_, _, _): (usize, &'input str, usize),
+    (_, __0, _): (usize, Option<(Option<&'input str>, &'input str, Option<&'input str>)>, usize),
+) -> Option<(Option<&'input str>, &'input str, Option<&'input str>)>
 {
-    { let mut v = v; v.push(x); v }
+    __0
 }
 
 #[allow(unused_variables)]
@@ -1244,11 +932,11 @@ fn __action4<
     'input,
 >(
     input: &'input str,
-    __lookbehind: &usize,
-    __lookahead: &usize,
-) -> Vec<(usize, String, usize)>
+    (_, __0, _): (usize, &'input str, usize),
+    (_, _, _): (usize, &'input str, usize),
+) -> &'input str
 {
-    vec![]
+    __0
 }
 
 #[allow(unused_variables)]
@@ -1257,10 +945,11 @@ fn __action5<
     'input,
 >(
     input: &'input str,
-    (_, __0, _): (usize, &'input str, usize),
-) -> String
+    (_, __0, _): (usize, (Option<&'input str>, &'input str, Option<&'input str>), usize),
+    (_, _, _): (usize, &'input str, usize),
+) -> (Option<&'input str>, &'input str, Option<&'input str>)
 {
-    __0.to_string()
+    __0
 }
 
 #[allow(unused_variables)]
@@ -1269,10 +958,12 @@ fn __action6<
     'input,
 >(
     input: &'input str,
-    (_, __0, _): (usize, (usize, usize, usize), usize),
-) -> (usize, usize, usize)
+    (_, __0, _): (usize, Option<&'input str>, usize),
+    (_, __1, _): (usize, &'input str, usize),
+    (_, __2, _): (usize, Option<&'input str>, usize),
+) -> (Option<&'input str>, &'input str, Option<&'input str>)
 {
-    __0
+    (__0, __1, __2)
 }
 
 #[allow(unused_variables)]
@@ -1281,11 +972,10 @@ fn __action7<
     'input,
 >(
     input: &'input str,
-    (_, __0, _): (usize, (usize, usize), usize),
-    (_, __1, _): (usize, (usize, String, usize), usize),
-) -> ((usize, usize), (usize, String, usize))
+    (_, __0, _): (usize, Option<&'input str>, usize),
+) -> Option<&'input str>
 {
-    (__0, __1)
+    __0
 }
 
 #[allow(unused_variables)]
@@ -1294,12 +984,10 @@ fn __action8<
     'input,
 >(
     input: &'input str,
-    (_, l, _): (usize, usize, usize),
-    (_, _, _): (usize, Option<&'input str>, usize),
-    (_, r, _): (usize, usize, usize),
-) -> (usize, usize)
+    (_, __0, _): (usize, &'input str, usize),
+) -> Option<&'input str>
 {
-    (l, r)
+    Some(__0)
 }
 
 #[allow(unused_variables)]
@@ -1308,14 +996,11 @@ fn __action9<
     'input,
 >(
     input: &'input str,
-    (_, _, _): (usize, &'input str, usize),
-    (_, m, _): (usize, usize, usize),
-    (_, q, _): (usize, usize, usize),
-    (_, _, _): (usize, &'input str, usize),
-    (_, e, _): (usize, usize, usize),
-) -> (usize, usize, usize)
+    __lookbehind: &usize,
+    __lookahead: &usize,
+) -> Option<&'input str>
 {
-    (m, q, e)
+    None
 }
 
 #[allow(unused_variables)]
@@ -1324,17 +1009,28 @@ fn __action10<
     'input,
 >(
     input: &'input str,
-    (_, l, _): (usize, usize, usize),
-    (_, t, _): (usize, String, usize),
-    (_, r, _): (usize, usize, usize),
-) -> (usize, String, usize)
+    (_, __0, _): (usize, (Option<&'input str>, &'input str, Option<&'input str>), usize),
+) -> Option<(Option<&'input str>, &'input str, Option<&'input str>)>
 {
-    (l, t, r)
+    Some(__0)
+}
+
+#[allow(unused_variables)]
+#[allow(clippy::too_many_arguments, clippy::needless_lifetimes, clippy::just_underscores_and_digits, clippy::extra_unused_type_parameters)]
+fn __action11<
+    'input,
+>(
+    input: &'input str,
+    __lookbehind: &usize,
+    __lookahead: &usize,
+) -> Option<(Option<&'input str>, &'input str, Option<&'input str>)>
+{
+    None
 }
 
 #[allow(unused_variables)]
 #[allow(clippy::needless_lifetimes, clippy::clone_on_copy)]
-fn __action11<
+fn __action12<
     'input,
 >(
     input: &'input str,
@@ -1347,32 +1043,32 @@ fn __action11<
 
 #[allow(unused_variables)]
 #[allow(clippy::too_many_arguments, clippy::needless_lifetimes, clippy::just_underscores_and_digits, clippy::extra_unused_type_parameters)]
-fn __action12<
-    'input,
->(
-    input: &'input str,
-    (_, __0, _): (usize, &'input str, usize),
-) -> Option<&'input str>
-{
-    Some(__0)
-}
-
-#[allow(unused_variables)]
-#[allow(clippy::too_many_arguments, clippy::needless_lifetimes, clippy::just_underscores_and_digits, clippy::extra_unused_type_parameters)]
 fn __action13<
     'input,
 >(
     input: &'input str,
     __lookbehind: &usize,
     __lookahead: &usize,
-) -> Option<&'input str>
+) -> alloc::vec::Vec<usize>
 {
-    None
+    alloc::vec![]
+}
+
+#[allow(unused_variables)]
+#[allow(clippy::too_many_arguments, clippy::needless_lifetimes, clippy::just_underscores_and_digits, clippy::extra_unused_type_parameters)]
+fn __action14<
+    'input,
+>(
+    input: &'input str,
+    (_, v, _): (usize, alloc::vec::Vec<usize>, usize),
+) -> alloc::vec::Vec<usize>
+{
+    v
 }
 
 #[allow(unused_variables)]
 #[allow(clippy::needless_lifetimes, clippy::clone_on_copy)]
-fn __action14<
+fn __action15<
     'input,
 >(
     input: &'input str,
@@ -1384,88 +1080,28 @@ fn __action14<
 }
 
 #[allow(unused_variables)]
-#[allow(clippy::too_many_arguments, clippy::needless_lifetimes,
-    clippy::just_underscores_and_digits, clippy::clone_on_copy, clippy::unit_arg)]
-fn __action15<
-    'input,
->(
-    input: &'input str,
-    __0: (usize, usize, usize),
-    __1: (usize, &'input str, usize),
-    __2: (usize, usize, usize),
-) -> (usize, usize)
-{
-    let __start0 = __1.0.clone();
-    let __end0 = __1.2.clone();
-    let __temp0 = __action12(
-        input,
-        __1,
-    );
-    let __temp0 = (__start0, __temp0, __end0);
-    __action8(
-        input,
-        __0,
-        __temp0,
-        __2,
-    )
-}
-
-#[allow(unused_variables)]
-#[allow(clippy::too_many_arguments, clippy::needless_lifetimes,
-    clippy::just_underscores_and_digits, clippy::clone_on_copy, clippy::unit_arg)]
+#[allow(clippy::too_many_arguments, clippy::needless_lifetimes, clippy::just_underscores_and_digits, clippy::extra_unused_type_parameters)]
 fn __action16<
     'input,
 >(
     input: &'input str,
-    __0: (usize, usize, usize),
-    __1: (usize, usize, usize),
-) -> (usize, usize)
+    (_, __0, _): (usize, usize, usize),
+) -> alloc::vec::Vec<usize>
 {
-    let __start0 = __0.2.clone();
-    let __end0 = __1.0.clone();
-    let __temp0 = __action13(
-        input,
-        &__start0,
-        &__end0,
-    );
-    let __temp0 = (__start0, __temp0, __end0);
-    __action8(
-        input,
-        __0,
-        __temp0,
-        __1,
-    )
+    alloc::vec![__0]
 }
 
 #[allow(unused_variables)]
-#[allow(clippy::too_many_arguments, clippy::needless_lifetimes,
-    clippy::just_underscores_and_digits, clippy::clone_on_copy, clippy::unit_arg)]
+#[allow(clippy::too_many_arguments, clippy::needless_lifetimes, clippy::just_underscores_and_digits, clippy::extra_unused_type_parameters)]
 fn __action17<
     'input,
 >(
     input: &'input str,
-    __0: (usize, &'input str, usize),
-    __1: (usize, usize, usize),
-    __2: (usize, &'input str, usize),
-    __3: (usize, usize, usize),
-) -> (usize, usize, usize)
+    (_, v, _): (usize, alloc::vec::Vec<usize>, usize),
+    (_, e, _): (usize, usize, usize),
+) -> alloc::vec::Vec<usize>
 {
-    let __start0 = __1.2.clone();
-    let __end0 = __2.0.clone();
-    let __temp0 = __action14(
-        input,
-        &__start0,
-        &__end0,
-    );
-    let __temp0 = (__start0, __temp0, __end0);
-    __action9(
-        input,
-        __0,
-        __1,
-        __temp0,
-        __2,
-        __3,
-    )
+    { let mut v = v; v.push(e); v }
 }
 
 #[allow(unused_variables)]
@@ -1476,22 +1112,18 @@ fn __action18<
 >(
     input: &'input str,
     __0: (usize, &'input str, usize),
-    __1: (usize, usize, usize),
-) -> (usize, usize)
+) -> Option<&'input str>
 {
     let __start0 = __0.0.clone();
-    let __end0 = __0.0.clone();
-    let __temp0 = __action14(
+    let __end0 = __0.2.clone();
+    let __temp0 = __action8(
         input,
-        &__start0,
-        &__end0,
+        __0,
     );
     let __temp0 = (__start0, __temp0, __end0);
-    __action15(
+    __action7(
         input,
         __temp0,
-        __0,
-        __1,
     )
 }
 
@@ -1502,21 +1134,21 @@ fn __action19<
     'input,
 >(
     input: &'input str,
-    __0: (usize, usize, usize),
-) -> (usize, usize)
+    __lookbehind: &usize,
+    __lookahead: &usize,
+) -> Option<&'input str>
 {
-    let __start0 = __0.0.clone();
-    let __end0 = __0.0.clone();
-    let __temp0 = __action14(
+    let __start0 = __lookbehind.clone();
+    let __end0 = __lookahead.clone();
+    let __temp0 = __action9(
         input,
         &__start0,
         &__end0,
     );
     let __temp0 = (__start0, __temp0, __end0);
-    __action16(
+    __action7(
         input,
         __temp0,
-        __0,
     )
 }
 
@@ -1527,19 +1159,19 @@ fn __action20<
     'input,
 >(
     input: &'input str,
-    __0: (usize, String, usize),
+    __0: (usize, alloc::vec::Vec<usize>, usize),
     __1: (usize, usize, usize),
-) -> (usize, String, usize)
+) -> Vec<usize>
 {
     let __start0 = __0.0.clone();
     let __end0 = __0.0.clone();
-    let __temp0 = __action14(
+    let __temp0 = __action15(
         input,
         &__start0,
         &__end0,
     );
     let __temp0 = (__start0, __temp0, __end0);
-    __action10(
+    __action1(
         input,
         __temp0,
         __0,
@@ -1554,32 +1186,21 @@ fn __action21<
     'input,
 >(
     input: &'input str,
-    __0: (usize, &'input str, usize),
-    __1: (usize, &'input str, usize),
-) -> (usize, usize, usize)
+    __0: (usize, alloc::vec::Vec<usize>, usize),
+) -> Vec<usize>
 {
     let __start0 = __0.2.clone();
-    let __end0 = __1.0.clone();
-    let __start1 = __1.2.clone();
-    let __end1 = __1.2.clone();
-    let __temp0 = __action11(
+    let __end0 = __0.2.clone();
+    let __temp0 = __action12(
         input,
         &__start0,
         &__end0,
     );
     let __temp0 = (__start0, __temp0, __end0);
-    let __temp1 = __action11(
-        input,
-        &__start1,
-        &__end1,
-    );
-    let __temp1 = (__start1, __temp1, __end1);
-    __action17(
+    __action20(
         input,
         __0,
         __temp0,
-        __1,
-        __temp1,
     )
 }
 
@@ -1590,20 +1211,20 @@ fn __action22<
     'input,
 >(
     input: &'input str,
-    __0: (usize, &'input str, usize),
-) -> (usize, usize)
+    __lookbehind: &usize,
+    __lookahead: &usize,
+) -> Vec<usize>
 {
-    let __start0 = __0.2.clone();
-    let __end0 = __0.2.clone();
-    let __temp0 = __action11(
+    let __start0 = __lookbehind.clone();
+    let __end0 = __lookahead.clone();
+    let __temp0 = __action13(
         input,
         &__start0,
         &__end0,
     );
     let __temp0 = (__start0, __temp0, __end0);
-    __action18(
+    __action21(
         input,
-        __0,
         __temp0,
     )
 }
@@ -1615,19 +1236,17 @@ fn __action23<
     'input,
 >(
     input: &'input str,
-    __lookbehind: &usize,
-    __lookahead: &usize,
-) -> (usize, usize)
+    __0: (usize, alloc::vec::Vec<usize>, usize),
+) -> Vec<usize>
 {
-    let __start0 = __lookbehind.clone();
-    let __end0 = __lookahead.clone();
-    let __temp0 = __action11(
+    let __start0 = __0.0.clone();
+    let __end0 = __0.2.clone();
+    let __temp0 = __action14(
         input,
-        &__start0,
-        &__end0,
+        __0,
     );
     let __temp0 = (__start0, __temp0, __end0);
-    __action19(
+    __action21(
         input,
         __temp0,
     )
@@ -1640,8 +1259,33 @@ fn __action24<
     'input,
 >(
     input: &'input str,
-    __0: (usize, String, usize),
-) -> (usize, String, usize)
+    __0: (usize, &'input str, usize),
+    __1: (usize, (Option<&'input str>, &'input str, Option<&'input str>), usize),
+) -> Option<(Option<&'input str>, &'input str, Option<&'input str>)>
+{
+    let __start0 = __1.0.clone();
+    let __end0 = __1.2.clone();
+    let __temp0 = __action10(
+        input,
+        __1,
+    );
+    let __temp0 = (__start0, __temp0, __end0);
+    __action3(
+        input,
+        __0,
+        __temp0,
+    )
+}
+
+#[allow(unused_variables)]
+#[allow(clippy::too_many_arguments, clippy::needless_lifetimes,
+    clippy::just_underscores_and_digits, clippy::clone_on_copy, clippy::unit_arg)]
+fn __action25<
+    'input,
+>(
+    input: &'input str,
+    __0: (usize, &'input str, usize),
+) -> Option<(Option<&'input str>, &'input str, Option<&'input str>)>
 {
     let __start0 = __0.2.clone();
     let __end0 = __0.2.clone();
@@ -1651,7 +1295,7 @@ fn __action24<
         &__end0,
     );
     let __temp0 = (__start0, __temp0, __end0);
-    __action20(
+    __action3(
         input,
         __0,
         __temp0,
